@@ -420,6 +420,7 @@ func main() {
 	nSplit := flag.Int("split", 60, "split cases")
 	nAsm := flag.Int("asm", 80, "assembler cases")
 	nConc := flag.Int("conc", 6, "concurrent connection-pair cases")
+	nSend := flag.Int("sendq", 12, "send-queue histories (run concurrently; each waits out at most two 10 s queue time-outs)")
 	nBack := flag.Int("backpressure", 2, "back-pressure cases (a full send queue, a large and a small message on one topic)")
 	outDir := flag.String("outdir", ".", "output directory")
 	_ = flag.String("replay", "", "replay file (cases regenerate deterministically from the seed)")
@@ -437,5 +438,10 @@ func main() {
 	concCases(r.Fork(), *nConc, w3, *outDir)
 	backpressureCases(r.Fork(), *nBack, w3)
 	w3.Close(st)
+	w4 := &sim.CaseWriter{OutDir: *outDir, Name: "c18send", Imports: imp, CaseType: "send_case", MFun: "send_mismatches", VFun: "send_violations", PerShard: 50}
+	sendQueueCases(r.Fork(), *nSend, w4)
+	w4.Close(st)
+	stopCases(r.Fork(), 20, *outDir)
+	heartbeatCases(3, *outDir)
 	fmt.Printf("c18: %d cases %v; concurrent: %d messages sent, %d delivered, %d bytes\n", st.Cases, st.Kinds, st.Sent, st.Recv, st.Bytes)
 }
